@@ -116,10 +116,19 @@ def main():
             demo_only(pid)
         return
     pid = sys.argv[1]
-    src = Path(sys.argv[2] if len(sys.argv) > 2 else f"/tmp/seed-out/{pid}")
+    src = Path(sys.argv[2] if len(sys.argv) > 2 else (f"/tmp/seed-out/{pid}" if Path(f"/tmp/seed-out/{pid}").exists() else str(VERIF / "seeded" / pid)))
     dest = VERIF / "seeded" / pid
     dest.mkdir(parents=True, exist_ok=True)
-    for f in src.iterdir():
+    old_history = []
+    if (dest / "meta.json").exists():
+        try:
+            old = json.loads((dest / "meta.json").read_text())
+            old_history = old.get("history", [])
+            if old.get("coordinator_confirmation"):
+                old_history = old_history + [{"earlier_evaluation": {k: old["coordinator_confirmation"].get(k) for k in ("evaluated_at", "repo_head", "check_exit", "caught", "check_lines")}}]
+        except Exception:
+            pass
+    for f in ([] if src.resolve() == dest.resolve() else src.iterdir()):
         if f.is_file() and f.suffix in (".diff", ".cpp", ".sh", ".txt", ".json", ".hpp", ".py") and f.stat().st_size < 200000:
             shutil.copy(f, dest / f.name)
     src = dest
@@ -159,6 +168,8 @@ def main():
     meta_f = dest / "meta.json"
     meta = json.loads(meta_f.read_text()) if meta_f.exists() else {"property": pid}
     meta["coordinator_confirmation"] = rec
+    if old_history:
+        meta["history"] = old_history
     meta_f.write_text(json.dumps(meta, indent=1) + "\n")
     print(pid, json.dumps({k: rec.get(k) for k in ("demo_clean", "patch_applies", "tests_pass_with_patch", "demo_patched", "check_exit", "caught", "check_lines")}))
 
